@@ -37,6 +37,16 @@ TIERS = {
     "quick": {"runs": 12000, "chunk": 150, "wall": 100, "chunk_timeout": 400, "selftest": 10},
     "thorough": {"runs": 160000, "chunk": 400, "wall": 800, "chunk_timeout": 900, "selftest": 16},
 }
+ISOLATE_RUNS = True
+
+
+def preload():
+    setup_repo_path()
+    import importlib
+    for m in ("fcp.parser", "fcp.error", "fcp.encoding"):
+        importlib.import_module(m)
+
+
 EXPECTED_PROBES = {t: ["enum_width_3", "enum_width_5_7", "enum_width_9_16", "raise_then_layout", "relayout_same",
                        "options_then_plain_binding", "nested_array", "array_of_struct_unrolled", "ids_out_of_order",
                        "same_field_name_in_two_structs_with_block"] for t in TIERS}
